@@ -183,6 +183,11 @@ TextStep(e) ==
     ELSE IF e.ev # "Text" THEN <<st, {}>>
     ELSE <<st, Robust(e, "C11")
            \cup (IF e.evs = TextExpected(cfg, e) /\ e.left = 0 THEN {}
+                 \* U+FFFD typed at the terminal: a deviation explained exactly by that character being dropped is a class
+                 \* of its own (finding F42: the decoder's error marker and the character are not told apart)
+                 ELSE IF e.left = 0 /\ (\E i \in 1..Len(e.src) : e.src[i] = 65533)
+                         /\ e.evs = TextExpected(cfg, [e EXCEPT !.src = SelectSeq(e.src, LAMBDA r : r # 65533)])
+                 THEN {Dev("C11.replacement_character_dropped", IF e.cuts = <<>> THEN "whole" ELSE "split", <<cfg.cs, e.src, e.cuts>>)}
                  ELSE {Dev("C11.text", IF e.cuts = <<>> THEN "whole" ELSE "split", <<cfg.cs, e.src, e.cuts>>)})>>
 
 ---------------------------------------------------------------------------
